@@ -2,4 +2,6 @@ INIT Init
 NEXT Next
 CONSTANTS
   KeyMode = "unique"
+  CacheShared = FALSE
+  WithConvs = FALSE
   MaxOps = 0
